@@ -7,7 +7,7 @@ script, ids = sys.argv[1], sys.argv[2:]
 rows = {}
 for l in open('/verif/DESIGN.md'):
     c = [x.strip() for x in l.strip().strip('|').split(' | ')] if l.startswith('| C') else []
-    if len(c) >= 4 and re.fullmatch(r'C\d\d[a-f]', c[0]): rows[c[0]] = (c + [''])[:5]
+    if len(c) >= 4 and re.fullmatch(r'C\d\d[a-h]', c[0]): rows[c[0]] = (c + [''])[:5]
 lines = {}
 for l in open(script):
     if l.startswith('$V '):
@@ -31,7 +31,10 @@ for i in ids:
     demo_name = os.path.basename(demo_src)
     shutil.copy(demo_src, d + '/' + demo_name)
     src = os.path.dirname(patch)
-    if os.path.exists(src + '/README.md'): shutil.copy(src + '/README.md', d + '/README.agent.md')
+    for readme in ('/README.md', '/note.md'):
+        if os.path.exists(src + readme): shutil.copy(src + readme, d + '/README.agent.md')
+    if patch.endswith('.rebased.diff') and os.path.exists(src + '/patch.diff'):
+        shutil.copy(src + '/patch.diff', d + '/patch.original.diff')
     r = rows[i]
     meta = {"id": i, "property": i[:3], "breaks": r[1], "needs_to_manifest": r[2],
             "origin": "independent sub-agent given only the property text and its own scratch worktree of /repo",
